@@ -12,7 +12,7 @@ RULE = ("programs biased to textually identical gate statements in different sco
         "is inconclusive). non-trivial = program has a name collision or a twin; distinct = S-expression")
 ASSUMPTIONS = ["lexical binding rules as implemented in core_from_sx: parameters shadow header names inside the macro body only"]
 TIERS = {"quick": {"shards": 8, "budget_s": 100}, "thorough": {"shards": 16, "budget_s": 360}}
-REQUIRE = {"used-qubit-analyses-compared": 3000, "route:builder": 300, "judged-after-shifted-twin": 500, "route:text-native": 1000, "override-of-shadowed-name": 300, "route:build-lists": 300, "route:text": 300, "memo-hits": 500, "memo-hits-across-scopes": 50, "shadowing-programs": 300, "twin-programs": 300,
+REQUIRE = {"alias-fill-in-results-read-back-by-name": 1000, "used-qubit-analyses-compared": 3000, "route:builder": 300, "judged-after-shifted-twin": 500, "route:text-native": 1000, "override-of-shadowed-name": 300, "route:build-lists": 300, "route:text": 300, "memo-hits": 500, "memo-hits-across-scopes": 50, "shadowing-programs": 300, "twin-programs": 300,
            "metamorphic-pairs": 200}
 
 MEMO = {"hits": 0, "cross": 0, "calls": 0}
@@ -161,6 +161,29 @@ def judge(case):
                 elif as_set(oa[1]) != want_q:
                     fails.append(("used-qubit-analysis-breaks-lexical-binding", {"expected": sorted(want_q), "got": sorted(as_set(oa[1]))}))
                 INFO["used"] = INFO.get("used", 0) + 1
+    # (d) alias fill-in writes references in terms of the register: inside a macro one of whose parameters carries the
+    #     register's name that spelling would mean the parameter.  Either the pass refuses, or what it wrote -- read back
+    #     by name, through the generated text -- still means what the program meant.
+    if not fails and m_full is not None:
+        od = lib.outcome(lambda: lib.fill_in_map(lib.fill_in_let(c)))
+        if od[0] == "ok":
+            ot = lib.outcome(lib.generate, od[1])
+            orp = lib.outcome(lib.parse, ot[1], X.native() if route == "text-native" else None) if ot[0] == "ok" else ot
+            INFO["filled"] = INFO.get("filled", 0) + 1
+            if orp[0] != "ok":
+                fails.append(("fill_in_map-breaks-lexical-binding:result-not-readable-by-name", {"error": str(orp[1:3])[:200],
+                                                                                                "text": ot[1] if ot[0] == "ok" else None}))
+            else:
+                try:
+                    g_d = M.meaning(M.core_from_ir(orp[1]), expand_macros=True, env={}, resolve=True)
+                    if not M.tree_equal(m_full, g_d):
+                        fails.append(("fill_in_map-breaks-lexical-binding", {"diff": M.first_diff(m_full, g_d), "text": ot[1]}))
+                except M.MeaningError as ex:
+                    fails.append(("fill_in_map-breaks-lexical-binding:no-meaning:" + ex.kind, {"text": ot[1]}))
+                except M.OracleError:
+                    pass
+        elif od[0] == "exc":
+            fails.append(("fill_in_map-crashed:" + od[1], {"error": od[2]}))
     # (b) let substitution with an override of a name that some macro parameter shadows
     ov = case.get("ov")
     if ov and not fails:
@@ -317,6 +340,7 @@ def process(ctx, case, seen):
     INFO.clear()
     st, fails, info = judge(case)
     rec.count("used-qubit-analyses-compared", INFO.get("used", 0))
+    rec.count("alias-fill-in-results-read-back-by-name", INFO.get("filled", 0))
     letnames = {s[1] for s in prog[1:] if s[0] in ("let", "register", "map")}
     shadow = any(s[0] == "macro" and set(s[2:-1]) & letnames for s in prog[1:])
     gates = [g for _p, g in statements_with_paths(prog)]
